@@ -14,25 +14,25 @@ P = {
     "C02": ("exploration", "differential monitor: real codec vs independent table-driven reference codec",
             "Every kind's frame is compared byte-for-byte with the image built by a reference codec interpreting an independent transcription of InSim v9 / relay; reference-built frames are decoded and compared with the typed value. Per-field perturbation names the offending field.",
             "Trusted base is ref/insim_v9.spec (my transcription of InSim.txt; the document itself is not in the sandbox). Unpinned items (IP octet order, SSP/SSG unit, signedness of Steer/Accel) are listed in the evidence.", "4/C02"),
-    "C03": ("exploration", "runtime well-formedness monitor on encoder output incl. hostile counts/lengths and decoded-origin packets",
+    "C03": ("exploration", "runtime well-formedness monitor on encoder output incl. hostile counts/lengths and decoded-origin packets; Mode::encode_length enumerated over all lengths; re-run under a format-everything tracing subscriber",
             "Encodes packets of every kind with counts 0..255 and texts 0..2x width in both modes under a panic monitor; every Ok frame is checked for length/size byte/count byte/self-decoding; panics accepted only for packets the specification cannot represent.",
             "Representability comes from ref/insim_v9.spec sizes and maxima.", "4/C03"),
-    "C04": ("exploration", "hostile-input runtime monitor on the decoder (panic + buffer before/after oracle) with hang journal, Miri underneath",
+    "C04": ("exploration", "hostile-input runtime monitor on the decoder (panic + buffer before/after oracle) with hang journal; Mode::decode_length enumerated; re-run under a tracing subscriber; Miri underneath",
             "Feeds header matrices, every-byte mutations of valid frames of every kind, truncations/extensions and random buffers to the real decoder; checks totality, exact consumption of the announced frame and independence from trailing bytes. Thorough adds Miri shards.",
             "Reference framer (10 lines) defines the announced length; uncompressed lengths >=4 not divisible by 4 may be framed or refused.", "4/C04"),
-    "C05": ("fault_enumeration", "event-log monitor over scripted transports: all partitions of short streams, sampled long sessions, injected transient errors; conservation via buffer hook; Miri underneath",
+    "C05": ("fault_enumeration", "event-log monitor over scripted transports: all partitions of short streams, sampled long sessions, injected transient errors; conservation via buffer hook; loopback TCP sessions over Builder-made connections; re-run under a tracing subscriber; Miri underneath",
             "Drives both Framed implementations over an in-memory transport with every segmentation of short streams and hostile random segmentations of sessions > 6120 bytes, injecting transient errors, and checks the read results against the reference framing, byte conservation (hook) and blocking==tokio.",
             "Transport scripts model TCP-like byte streams; the conservation sub-check needs the verif-hooks feature.", "4/C05"),
-    "C06": ("fault_enumeration", "event-log monitor: bytes accepted by a scripted short-writing / Pending transport vs encoder frames",
+    "C06": ("fault_enumeration", "event-log monitor: bytes accepted by a scripted short-writing / Pending / buffering (flush-scripted) transport vs encoder frames; loopback TCP and back-pressured WebSocket peers; re-run under a tracing subscriber; Miri underneath",
             "All compositions of short frames into per-call accepted counts, random acceptance for long frames, Pending/Interrupted injection; the accepted byte log must equal the concatenation of the encoded frames of the successful writes.",
             "Scripted transport accepts 1..offered bytes per call; write errors end the session's obligations.", "4/C06"),
-    "C07": ("exploration", "event-log monitor: outgoing bytes interleaved with read results (exactly-once / only-keepalive / ordering)",
+    "C07": ("exploration", "event-log monitor: outgoing bytes interleaved with read results (exactly-once / only-keepalive / ordering), incl. cancelled reads and buffering transports; maybe_pong enumerated; loopback TCP over Builder-made connections; re-run under a tracing subscriber; Miri underneath",
             "All 30 TINY sub-types x ReqI 0..255 plus histories with keep-alives interleaved with every other kind, random segmentation, both implementations and modes; the outgoing log must hold exactly one TINY_NONE per keep-alive written before that keep-alive is returned.",
             "Outgoing order is observed at the scripted transport (client boundary).", "4/C07"),
-    "C08": ("exploration", "runtime monitor over real loopback UDP sockets with kernel-queue observation; ASan underneath",
+    "C08": ("exploration", "runtime monitor over real loopback UDP sockets (hand-built and Builder-made connections, async and synchronous adaptor entry points) with kernel-queue observation / in-order sentinels deciding loss; ASan underneath",
             "Long datagram sessions (>> 6120 bytes, sizes 4..1020, several packets per datagram) through both UDP adaptors on real loopback sockets; delivered packets must equal the sent ones in order; loss is decided by observing an empty kernel queue while packets are owed.",
             "Kernel-level loss on loopback assumed absent (bursts far below SO_RCVBUF).", "4/C08"),
-    "C09": ("exploration", "exhaustive runtime check over scripted connections",
+    "C09": ("exploration", "exhaustive runtime check over scripted connections, Builder-made loopback connections and the public comparison helper; re-run under a tracing subscriber",
             "All 256 version bytes x {on, off} x {blocking, tokio} x positions x modes, and every other kind in both settings.",
             "VER frames are built by hand (fixed 20-byte layout).", "4/C09"),
     "C10": ("exploration", "table-conformance monitor against independent Microsoft codepage tables (CPython codecs), plus round-trip/totality workloads",
@@ -41,8 +41,8 @@ P = {
     "C11": ("exploration", "runtime monitor on the text field's byte range located through the spec table",
             "Every text-bearing field x lengths 0..2N around its width x ASCII/single-byte/double-byte/marker-inserting text: exact width, NUL padding, multiple-of-4 for variable fields, terminating NUL for MST/MSX/MSL/MTC, decode stops at first NUL.",
             "Field positions/widths from ref/insim_v9.spec.", "4/C11"),
-    "C12": ("exploration", "exhaustive small-alphabet + random runtime check with reference tokeniser/stripper",
-            "All strings up to length 5 (quick 4) over 18 class representatives plus random Unicode strings: unescape(escape(s)) == s, escaped output wire-safe, escape->codepage encode->decode->unescape chain, strip == 10-line reference and idempotent.",
+    "C12": ("exploration", "exhaustive small-alphabet and token-level + random runtime check with reference tokeniser/stripper",
+            "All strings up to length 6 (quick 4) over 20 class representatives, all strings of up to 6 (quick 5) multi-character tokens, plus random Unicode strings: unescape(escape(s)) == s, escaped output wire-safe, escape->codepage encode->decode->unescape chain, strip == 10-line reference and idempotent.",
             "Class-representative alphabet; longer strings sampled.", "4/C12"),
     "C13": ("exploration", "exhaustive runtime enumeration (thorough: all 2^32 values) against an independent classifier",
             "Thorough enumerates every 4-byte value on 16 threads in both profiles; quick enumerates all 2^24 NUL-terminated values (every built-in shape) plus 2e7 others.",
@@ -56,16 +56,16 @@ P = {
     "C16": ("exploration", "exhaustive small-alphabet + random runtime check with hang journal; order axioms on all pairs/triples",
             "All strings up to length 6 (quick 5) over 12 class representatives, all LFS-shaped 8-byte wire forms through the VER packet, random ASCII/Unicode strings; print/re-parse, case-insensitivity, Eq/Ord consistency, antisymmetry and transitivity on a pool.",
             "Hang decided by journal + isolated re-run, not by a deadline.", "4/C16"),
-    "C17": ("exploration", "runtime round-trip / truncation / hostile-count monitor with allocation monitor and hang journal; Miri underneath",
+    "C17": ("exploration", "runtime round-trip / truncation / hostile-count monitor over the in-memory parsers and every disk entry point, with allocation monitor and hang journal; Miri underneath",
             "Generated PTH/SMX structures incl. NaN payloads round-trip byte-exactly; every strict prefix of valid files must be rejected; hostile counts and mutated/random inputs must return without panic and within an allocation bound measured by a counting global allocator.",
             "Allocation bound 64 x input + 64 KiB.", "4/C17"),
-    "C18": ("exploration", "reference-model monitor of the builder + real loopback TCP/UDP peers; ASan underneath",
+    "C18": ("exploration", "reference-model monitor of the builder (random call sequences incl. crate-level shortcuts, relay-first orders, out-of-range options) + real loopback TCP/UDP peers; ASan underneath",
             "Exhaustive flag states and random setter sequences against a plain-struct reference model of the builder; the bytes received by loopback peers after connect_blocking/connect_async must be exactly the reference ISI image in the configured mode.",
             "Relay endpoints cannot be dialled offline and are excluded.", "4/C18"),
-    "C19": ("fault_enumeration", "hand-polled futures over scripted async transports with every single/double drop point enumerated; event-log checker",
+    "C19": ("fault_enumeration", "hand-polled futures over scripted async transports (read, write and flush suspension points) with every single/double drop point enumerated; event-log checker; select!-loop sessions over real TCP/UDP/WebSocket; re-run under a tracing subscriber; Miri underneath",
             "Every poll index (and every pair) at which the read future is dropped for short sessions with Pending/partial scripts on both halves, random multi-drop plans for long sessions; completed reads and outgoing bytes must equal the uninterrupted session.",
             "Cooperative single-task schedules only (the library has no threads); suspension points are the transport's Pending returns.", "4/C19"),
-    "C20": ("exploration", "runtime monitor over a real loopback tungstenite server; ASan underneath",
+    "C20": ("exploration", "runtime monitor over a real loopback tungstenite server incl. close races and back-pressure (4 KiB socket buffers, stalled peer, cancelled reads and writes); re-run under a tracing subscriber; ASan underneath",
             "Frame streams partitioned into binary messages in every way that matters (one/many/split/oversize/empty, interleaved text/ping/pong), server-side close; results must equal the reference framing; writes observed as one binary message each.",
             "Loopback websocket instead of isrelay.lfs.net.", "4/C20"),
 }
@@ -108,7 +108,7 @@ def main():
             "add_only": True,
         },
         "engines": [{"name": "ivh", "path": "/verif/harness", "serves_properties": sorted(CLAIMED),
-                     "kind_free_text": "Rust harness crate: workload generators, scripted transports, loopback peers, reference models, offline event-log checkers, evidence writer; driven by /verif/check which also runs the Miri/ASan stages"}],
+                     "kind_free_text": "Rust harness crate: workload generators, scripted transports, loopback peers, reference models, offline event-log checkers, evidence writer; driven by /verif/check which also runs the traced, release, Miri and ASan stages"}],
         "checks": checks,
         "notes": "Runtime monitoring family: every verdict comes from executing the real crates under generated/enumerated/hostile workloads while monitors compare with small independent oracles. Exit 2 + INCONCLUSIVE line = harness/tool failure, never folded into pass or violation. known_findings.json lists open findings and fixed: records.",
         "not_applicable": na,
